@@ -624,4 +624,14 @@ def r10_4(ctx):
     return o
 
 
-RULES = [r10_1, r10_2, r10_3, r10_4]
+def r10_5(ctx):
+    from rules import C15
+    o = C15.r15_4(ctx)
+    o.rule = "R10.5"
+    o.text = ("subdivisions left in an operand by earlier operations do not disturb later ones: split addresses the "
+              "right segment also when some requested parameters fall on existing vertices and insert nothing (same "
+              "analysis as R15.4)")
+    return o
+
+
+RULES = [r10_1, r10_2, r10_3, r10_4, r10_5]
